@@ -102,6 +102,95 @@ def run_real(cfg, max_steps=6000):
     return {"outcome": outcome, "registered": registered, "delivered": got, "errors": errors}
 
 
+def run_position(cfg, max_steps=8000):
+    """where does a published event land in the subscriber's pending-event queue?  The subscriber is stopped (its thread has
+    ended, the fabric keeps running), two events are posted, then the fabric delivers a publication"""
+    errors = []
+    log = []
+    saved_cap = mhsm.HsmWithQueues.QUEUE_SIZE
+    if cfg.get("cap"):
+        mhsm.HsmWithQueues.QUEUE_SIZE = cfg["cap"]
+    try:
+        return _run_position(cfg, max_steps, errors, log)
+    finally:
+        mhsm.HsmWithQueues.QUEUE_SIZE = saved_cap
+
+
+def _run_position(cfg, max_steps, errors, log):
+    with dsched.Installed():
+        sched = dsched.Sched(dsched.round_robin_chooser(), max_steps=max_steps, trace=False)
+        dsched.Sched.current = sched
+        try:
+            kind = cfg["kind"]
+            sub = mao.ActiveObject(name="A")
+            ref = mao.ActiveObject(name="B")      # reference: the same pending events, then a direct post_lifo / post_fifo
+            actions = {"DO_SUB": lambda chart: chart.subscribe(Event(signal="PING"), queue_type=kind)}
+            chart = make_chart(log, "A", cfg["sub_spied"], actions)
+            res = {}
+
+            def quiet():
+                me = sched.me()
+                sched.yield_point("driver.settle", enabled=lambda: all(t is me or t.finished or not sched.is_enabled(t) for t in sched.threads))
+
+            def driver():
+                if cfg["sub_when"] == "before_start":
+                    sub.subscribe(Event(signal="PING"), queue_type=kind)
+                    sub.start_at(chart)
+                else:
+                    sub.start_at(chart)
+                    if cfg["sub_when"] == "after_outside":
+                        sub.subscribe(Event(signal="PING"), queue_type=kind)
+                    else:
+                        sub.post_fifo(Event(signal="DO_SUB"))
+                ref.start_at(make_chart(log, "B", cfg["sub_spied"], {}))
+                quiet()
+                sub.stop()
+                ref.stop()
+                for k in range(cfg.get("pending", 2)):
+                    sub.post_fifo(Event(signal="X%d" % (k + 1)))
+                    ref.post_fifo(Event(signal="X%d" % (k + 1)))
+                sub.fabric.publish(Event(signal="PING", payload=7))
+                (ref.post_lifo if kind == "lifo" else ref.post_fifo)(Event(signal="PING", payload=7))
+                quiet()
+                res["pending"] = [e.signal_name for e in sub.queue.deque.raw() if e.signal_name != "STOP_ACTIVE_OBJECT_SIGNAL"]
+                res["reference"] = [e.signal_name for e in ref.queue.deque.raw() if e.signal_name != "STOP_ACTIVE_OBJECT_SIGNAL"]
+            sched.spawn(driver, (), name="D")
+            outcome = sched.run()
+            for t in sched.threads:
+                if t.error is not None:
+                    errors.append("%s: %s: %s" % (t.name, type(t.error).__name__, t.error))
+        finally:
+            leaked = sched.shutdown()
+            if leaked:
+                errors.append("leaked: %s" % leaked)
+    return {"outcome": outcome, "pending": res.get("pending"), "reference": res.get("reference"), "errors": errors}
+
+
+def explore_position(run):
+    """C09 for active objects: every way of subscribing x fifo / lifo"""
+    cfgs = [{"position": True, "sub_spied": spied, "sub_when": when, "kind": kind}
+            for spied, when, kind in itertools.product((0, 1), WHEN, ("fifo", "lifo"))]
+    # pending-queue fill levels around a small capacity (the STOP event left by stop() occupies one slot): below, one short of
+    # full, exactly full
+    for kind in ("fifo", "lifo"):
+        for cap, pending in ((4, 0), (4, 2), (4, 3), (4, 5), (3, 2), (2, 1)):
+            cfgs.append({"position": True, "sub_spied": 1, "sub_when": "after_outside", "kind": kind, "cap": cap, "pending": pending})
+    for cfg in cfgs:
+        spied, when, kind = cfg["sub_spied"], cfg["sub_when"], cfg["kind"]
+        r = run_position(cfg)
+        run.traces_validated += 1
+        run.count("position: subscribe %s%s" % (when, ", capacity %d with %d pending" % (cfg["cap"], cfg["pending"]) if cfg.get("cap") else ""))
+        want = ["PING", "X1", "X2"] if kind == "lifo" else ["X1", "X2", "PING"]
+        if cfg.get("cap"):
+            want = r["reference"]          # as post_lifo / post_fifo would, at this fill level
+        if r["errors"]:
+            run.violate("C09/thread-error", "a thread died: %s" % r["errors"][:2], cfg)
+        elif r["pending"] != want:
+            run.violate("C09/position/%s" % kind, "active object subscribed with queue_type=%s (%s, %s chart): with X1, X2 pending a published "
+                        "PING left the queue as %s, expected %s (capacity %s)" % (kind, when, "spied" if spied else "un-spied", r["pending"], want, cfg.get("cap", 500)), cfg)
+        run.case(cfg, nontrivial=True)
+
+
 def explore(run, n):
     rng = run.rng
     cfgs = all_configs()
@@ -138,6 +227,9 @@ def explore(run, n):
 
 def replay(case):
     cc = case.get("case", case)
+    if cc.get("position"):
+        print(run_position(cc))
+        return 0
     print(run_real(cc))
     print(leanrun.run_driver([encode(cc)]))
     return 0
